@@ -75,6 +75,19 @@ CHECKS = {
    note='Axioms: none. Attribute values are taken as fixed points of the converters (C15).',
    tech='Coq proof (composition of renderer, parser round trip and loader models; induction over trees) + correspondence',
    ref='5/C04'),
+ 'C05': dict(
+   text='PARTIAL. Proved (Coq): for ANY parsed parts of a package (any root element and attributes, sections in any number and order, '
+        'character data between and inside them, unknown elements) without a style-name clash, the loader yields an explicit document: '
+        'each section holds, in load order, the kept children of the source sections routed to it (all children when the section has an '
+        'element child, none otherwise); subtrees are attached unchanged at any depth; the font declarations of content.xml are never '
+        'read, those of styles.xml are; and saving that document gives parts that parse back to it normalised (C04 applied to the '
+        'loaded document). Not proved: the package level (other members, media types: C03/C16 theorems and the oracle) and sources whose '
+        'sections hold character data (the re-save theorem needs element-only sections). Tied by correspondence of xml_parse + load_doc '
+        'with load() on every sample document of the repository, ten structure-preserving mutations of each and synthetic packages, '
+        'and judged by an independent source-vs-saved comparison (zipfile + expat).',
+   note='Axioms: none. White space is ignored by the oracle only where the schema gives element-only content.',
+   tech='Coq proof (loader model over arbitrary part trees, composition with C04) + correspondence on real and mutated packages',
+   ref='5/C05'),
  'C06': dict(
    text='Proof (Coq, finite domain decided by computation and lifted): over the four tables of odf/grammar.py and the relations read '
         'from the ODF 1.2 RELAX NG schema (both regenerated on every run, one numbering of names), the model of addElement / addText / '
